@@ -152,9 +152,11 @@ class LimitGatedScheduler {
               if (serial_) {
                 if (PerPoolPerThreadInfo::canInlineSchedule()) {
                   InlineDepthGuard dGuard;
+                  DISPENSO_VERIF_NOTE("InlPipeSerial", this, PerPoolPerThreadInfo::inlineDepth(), 0);
                   func();
                 } else {
                   DISPENSO_VERIF_POINT("PlCbSubmit", this);
+                  DISPENSO_VERIF_NOTE("InlPipeDefer", this, PerPoolPerThreadInfo::inlineDepth(), 0);
                   tasks_.schedule(RunOrCleanup(std::move(func)), ForceQueuingTag());
                 }
               } else {
